@@ -7,6 +7,7 @@ import CookModel.Lemmas.SimEventsFull
 import CookModel.Lemmas.SimBlankLines
 import CookModel.Lemmas.RecipeSimStatic
 import CookModel.Lemmas.RecipeSimBlank
+import CookModel.Lemmas.TrailInst
 /-
   C17  Line endings, comments and blank space do not change the recipe.
 
@@ -644,5 +645,326 @@ example : ResSim (α := Rat) C17_toyEnv.cs.uws
     (.cons (EvSim.mk_warning ⟨rfl, rfl, rfl, rfl⟩) .nil) (by
       simp only [TextModeFree]
       exact ⟨fun h => (by cases h.1), trivial⟩)
+
+/-! ## Trailing comment, trailing blanks, block comment between two words
+
+  Lexer level (any input): the token stream of the transformed source in terms of the original.
+  Splitter level (any input): the same blocks, the filler tokens inserted in one of them.
+  Recipe level (well-formed recipes, the quantifier of the property): the same recipe up to white
+  space in step text, by the C01 round trip applied to both sources. -/
+
+/-- **The lexer restarts wherever the last token is complete.**  `EndOK cs next ts`: the last token
+    of `ts` (if any) is spelled as the lexer spells a token of its kind when the next input character
+    is `next`.  If that holds of `lex u` and the first character of `v`, then `lex (u v) = lex u ++ lex v`
+    (the second part lexed at the shifted offset).  Generalises the restart after a newline token. -/
+theorem C17_lexer_restart (cs : CharSpec) (o : Nat) (u v : List Char) (h : EndOK cs v.head? (lexFrom cs o u)) :
+    lexFrom cs o (u ++ v) = lexFrom cs o u ++ lexFrom cs (o + utf8Len u) v := trail_lexFrom_append cs o u v h
+
+/-- which line ends are token boundaries in front of a blank: every text `a` whose last token is
+    not white space, not a line comment, not an unterminated block comment and not a lone backslash
+    (`CleanEnd`).  Needs only that the blank is not a word character. -/
+theorem C17_clean_line_end (cs : CharSpec) (hw : cs.wordChar ' ' = false) (o : Nat) (a : List Char)
+    (h : CleanEnd (lexFrom cs o a)) : EndOK cs (some ' ') (lexFrom cs o a) := trail_endOK_space cs hw o a h
+
+/-- **Trailing comment, token stream** (every input).  `a` = the source up to the end of a line,
+    `v` = the rest (empty, or starting with the line feed), `sp` = one or more blanks, `c` = the comment
+    text (no line feed).  For every character table with `TrailSpec` (blank is lexer white space and not
+    a word character; `-`, `[` are not white space), if the last token of `a` is complete in front of a
+    blank: `lex (a sp --c v)` = the tokens of `a`, a whitespace token `sp`, a line-comment token `--c`,
+    the tokens of `v` at the shifted offset.  Nothing else changes: no token of `a` or `v` is split,
+    merged or re-classified. -/
+theorem C17_trailing_comment_tokens (cs : CharSpec) (hs : TrailSpec cs) (o : Nat) (a sp c v : List Char)
+    (hne : sp ≠ []) (hsp : ∀ x ∈ sp, x = ' ') (hc : '\n' ∉ c) (hv : v.head? = none ∨ v.head? = some '\n')
+    (hend : EndOK cs (some ' ') (lexFrom cs o a)) :
+    lexFrom cs o (a ++ (sp ++ ('-' :: '-' :: c ++ v))) =
+      lexFrom cs o a ++ (⟨.ws, sp, o + utf8Len a⟩ :: ⟨.lineComment, '-' :: '-' :: c, o + utf8Len a + utf8Len sp⟩ ::
+        lexFrom cs (o + utf8Len a + utf8Len sp + utf8Len ('-' :: '-' :: c)) v) :=
+  trail_lex_comment cs hs o a sp c v hne hsp hc hv hend
+
+/-- **Trailing blanks, token stream** (every input): `lex (a sp v)` = the tokens of `a`, one
+    whitespace token `sp`, the tokens of `v` shifted, when `v` does not start with lexer white space
+    (a line feed, the end of input). -/
+theorem C17_trailing_spaces_tokens (cs : CharSpec) (hs : TrailSpec cs) (o : Nat) (a sp v : List Char)
+    (hne : sp ≠ []) (hsp : ∀ x ∈ sp, x = ' ') (hv : v.head?.any cs.ws = false)
+    (hend : EndOK cs (some ' ') (lexFrom cs o a)) :
+    lexFrom cs o (a ++ (sp ++ v)) =
+      lexFrom cs o a ++ (⟨.ws, sp, o + utf8Len a⟩ :: lexFrom cs (o + utf8Len a + utf8Len sp) v) :=
+  trail_lex_spaces cs hs o a sp v hne hsp hv hend
+
+/-- … and when the line already ends in a whitespace token `w` (the case `EndOK` excludes): the
+    blanks are merged into `w`, all other tokens are unchanged (those of `v` shifted).  Together with
+    `C17_trailing_space_widen` (text level): invisible after trimming. -/
+theorem C17_trailing_spaces_tokens_widen (cs : CharSpec) (hs : TrailSpec cs) (o : Nat) (a sp v : List Char)
+    (hne : sp ≠ []) (hsp : ∀ x ∈ sp, x = ' ') (hv : v.head?.any cs.ws = false)
+    (T : List Tok) (w : Tok) (hT : lexFrom cs o a = T ++ [w]) (hw : w.kind = .ws) :
+    lexFrom cs o (a ++ (sp ++ v)) =
+      T ++ (⟨.ws, w.text ++ sp, w.start⟩ :: lexFrom cs (o + utf8Len a + utf8Len sp) v) :=
+  trail_lex_spaces_widen cs hs o a sp v hne hsp hv T w hT hw
+
+/-- **Block comment between two words, token stream** (every input).  Original `a ␣ b`, transformed
+    `a ␣ [-body ␣ b` with `body` ending in `-]` and containing no earlier `-]` (the harness writes
+    `[- é c -]`), `b` not starting with white space: the original lexes to the tokens of `a`, a
+    whitespace token, the tokens of `b`; the transformed source to the tokens of `a`, whitespace, ONE
+    block-comment token, whitespace, the tokens of `b` shifted. -/
+theorem C17_block_comment_tokens (cs : CharSpec) (hs : TrailSpec cs) (o : Nat) (a body b : List Char)
+    (h1 : blockScan body = body.length) (h2 : ['-', ']'] <:+ body) (hb : b.head?.any cs.ws = false)
+    (hend : EndOK cs (some ' ') (lexFrom cs o a)) :
+    lexFrom cs o (a ++ (' ' :: b)) =
+      lexFrom cs o a ++ (⟨.ws, [' '], o + utf8Len a⟩ :: lexFrom cs (o + utf8Len a + 1) b) ∧
+    lexFrom cs o (a ++ (' ' :: ('[' :: '-' :: body ++ ' ' :: b))) =
+      lexFrom cs o a ++ (⟨.ws, [' '], o + utf8Len a⟩ :: ⟨.blockComment, '[' :: '-' :: body, o + utf8Len a + 1⟩ ::
+        ⟨.ws, [' '], o + utf8Len a + 1 + utf8Len ('[' :: '-' :: body)⟩ ::
+        lexFrom cs (o + utf8Len a + 1 + utf8Len ('[' :: '-' :: body) + 1) b) :=
+  trail_lex_block_comment cs hs o a body b h1 h2 hb hend
+
+/-- **Insertion of whitespace / comment tokens inside a line: the same blocks** (every token
+    stream).  `InsHyp A F W`: `A W` is a complete line, `A` a non-empty part of it in front of its
+    newline token, `F` whitespace / comment tokens.  The stream consists of complete lines `L`, the
+    line `A W`, anything `Z`.  With `F` inserted behind `A`, `next_block` cuts as many blocks, and
+    corresponding blocks are equal or (`InsB`) the block `p A q` has become `p A F q`, where
+    `q` = the rest `W` of the line and the further lines `N` of the block, trailing newline tokens
+    trimmed.  So blank-line detection, `>>` / `=` single-line detection, continuation and trimming all
+    decide identically (`F` never starts a line: `A` is not empty).  Covers all three
+    transformations: `F` = whitespace + line comment or whitespace alone in front of the newline
+    (`W = [nl]`), `F` = block comment + whitespace behind a whitespace token. -/
+theorem C17_insertion_blocks {A F W : List Tok} (h : InsHyp A F W) (L : List (List Tok)) (hL : ∀ l ∈ L, IsLine l)
+    (Z : List Tok) :
+    LRel (InsB A F W) (blocksOf (L.flatten ++ (A ++ F ++ W ++ Z))) (blocksOf (L.flatten ++ (A ++ W ++ Z))) :=
+  trail_blocks_insert h L hL Z
+
+/-- the same with the tokens behind the insertion at shifted positions (any kind-preserving,
+    reflexive relation `R`; e.g. `SameKT`, `TokSim`) -/
+theorem C17_insertion_blocks_shifted {A F W : List Tok} {R : Tok → Tok → Prop} (hR : ∀ a b, R a b → a.kind = b.kind)
+    (hrefl : ∀ t, R t t) (h : InsHyp A F W) (L : List (List Tok)) (hL : ∀ l ∈ L, IsLine l) (Z X' : List Tok)
+    (hX : LRel R X' (W ++ Z)) :
+    LRel (fun b' b => ∃ m, LRel R b' m ∧ InsB A F W m b)
+      (blocksOf (L.flatten ++ (A ++ F ++ X'))) (blocksOf (L.flatten ++ (A ++ W ++ Z))) :=
+  trail_blocks_insert_rel hR hrefl h L hL Z X' hX
+
+/-- **Trailing comment in the source: the same blocks** (every input; lexer and splitter
+    composed).  Source `u a ⏎ x` where `u` lexes to complete lines and `a` is the non-empty text of a
+    line whose last token is complete in front of a blank and in front of the line feed.  The blocks
+    `next_block` cuts from `u a sp --c ⏎ x` are, one by one and up to the positions of the tokens
+    behind the insertion, the blocks of `u a ⏎ x`, the one containing the line having the whitespace
+    token and the line-comment token inserted behind the tokens of `a`.
+    (`C17_trailing_spaces_blocks` is the same for trailing blanks.)  MISSING at this level: the same
+    composition for the block comment (the ingredients `C17_block_comment_tokens` and
+    `C17_insertion_blocks_shifted` are proved; the gluing is not written out), and an unterminated last
+    line (no line feed behind `a`). -/
+theorem C17_trailing_comment_blocks (cs : CharSpec) (hs : TrailSpec cs) (u a sp c x : List Char) (L : List (List Tok))
+    (hu : lex cs u = L.flatten) (hL : ∀ l ∈ L, IsLine l)
+    (hne : sp ≠ []) (hsp : ∀ y ∈ sp, y = ' ') (hc : '\n' ∉ c) (ha : a ≠ [])
+    (hnl : ∀ t ∈ lexFrom cs (utf8Len u) a, (t.kind != .newline) = true)
+    (hend : EndOK cs (some ' ') (lexFrom cs (utf8Len u) a)) (hend' : EndOK cs (some '\n') (lexFrom cs (utf8Len u) a)) :
+    ∃ F nl, F = [⟨.ws, sp, utf8Len u + utf8Len a⟩, ⟨.lineComment, '-' :: '-' :: c, utf8Len u + utf8Len a + utf8Len sp⟩] ∧
+      nl = (⟨.newline, ['\n'], utf8Len u + utf8Len a⟩ : Tok) ∧
+      LRel (fun b' b => ∃ m, LRel SameKT b' m ∧ InsB (lexFrom cs (utf8Len u) a) F [nl] m b)
+        (blocksOf (lex cs (u ++ (a ++ (sp ++ ('-' :: '-' :: c ++ '\n' :: x))))))
+        (blocksOf (lex cs (u ++ (a ++ '\n' :: x)))) :=
+  trail_comment_blocks_source cs hs u a sp c x L hu hL hne hsp hc ha hnl hend hend'
+
+/-- **White space next to white space does not change the words of a text** (`split_whitespace`,
+    the comparison the property allows for step text): for any white-space predicate, inserting
+    white space `S` where it touches white space or the end of the text (`BlankAdj`) leaves
+    `trailWords` (the maximal runs of non-white-space characters) unchanged, in any context `pre`. -/
+theorem C17_words_insensitive (ws : Char → Bool) (x S y : List Char) (hS : ∀ c ∈ S, ws c = true)
+    (hadj : BlankAdj ws x y) (pre : List Char) :
+    trailWords ws (pre ++ (x ++ S ++ y)) = trailWords ws (pre ++ (x ++ y)) := trail_words_ins ws x S y hS hadj pre
+
+/-- **One step, abstractly.**  `SegsIns ws segs' segs`: the segment list of a step with filler
+    tokens inserted in a text run (what they show is white space that touches white space or the end
+    of the run) or added as a text run of their own between components / at the end.  The step items
+    the analysis builds (`absItemsFrom`: text items with the shown text, component items with their
+    table index) then have the same normal form `trailLoose ws` — adjacent text items joined, split
+    into words, blank ones dropped, exactly the oracle's `loose` — and the components are the same. -/
+theorem C17_step_items_loose (ws : Char → Bool) {segs' segs : List SegX} (h : SegsIns ws segs' segs)
+    (b' b : List SegX) (hb : trailComps b' = trailComps b) :
+    trailLoose ws (absItemsFrom b' segs') = trailLoose ws (absItemsFrom b segs) ∧
+    trailComps segs' = trailComps segs := trail_segs_loose ws h b' b hb
+
+/-- the three transformations are such insertions: a trailing comment / trailing blanks inside a
+    text run (in front of a newline token of the run, or at its end) … -/
+theorem C17_trailing_is_insertion (ws : Char → Bool) (hsp : ws ' ' = true) (S1 S2 : List SegX) (l1 F l2 : List Tok)
+    (hF : IsFiller F) (hb : ∀ t ∈ F, t.kind = .ws → ∀ c ∈ t.text, c = ' ')
+    (hl2 : l2 = [] ∨ ∃ nl r, l2 = nl :: r ∧ nl.kind = .newline ∧ nl.text ≠ [])
+    (hS2 : ∀ s, S2.head? = some s → s.isText = false) :
+    SegsIns ws (S1 ++ .text (l1 ++ F ++ l2) :: S2) (S1 ++ .text (l1 ++ l2) :: S2) :=
+  trail_segsIns_trailing ws hsp S1 S2 l1 F l2 hF hb hl2 hS2
+
+/-- … behind a component that ends the line (the filler is a text run of its own) … -/
+theorem C17_trailing_after_component_is_insertion (ws : Char → Bool) (hsp : ws ' ' = true) (S1 S2 : List SegX)
+    (F : List Tok) (hF : IsFiller F) (hb : ∀ t ∈ F, t.kind = .ws → ∀ c ∈ t.text, c = ' ')
+    (hS2 : ∀ s, S2.head? = some s → s.isText = false) : SegsIns ws (S1 ++ .text F :: S2) (S1 ++ S2) :=
+  trail_segsIns_afterComponent ws hsp S1 S2 F hF hb hS2
+
+/-- … and a block comment (with its blank) behind a whitespace token of blanks in a text run -/
+theorem C17_block_comment_is_insertion (ws : Char → Bool) (hsp : ws ' ' = true) (S1 S2 : List SegX) (l1 : List Tok)
+    (w : Tok) (F l2 : List Tok) (hw : w.kind = .ws) (hwt : w.text ≠ []) (hwb : ∀ c ∈ w.text, c = ' ')
+    (hF : IsFiller F) (hb : ∀ t ∈ F, t.kind = .ws → ∀ c ∈ t.text, c = ' ')
+    (hS2 : ∀ s, S2.head? = some s → s.isText = false) :
+    SegsIns ws (S1 ++ .text ((l1 ++ [w]) ++ F ++ l2) :: S2) (S1 ++ .text ((l1 ++ [w]) ++ l2) :: S2) :=
+  trail_segsIns_blockComment ws hsp S1 S2 l1 w F l2 hw hwt hwb hF hb hS2
+
+/-- **Trailing comment, trailing blanks, block comment between words: the same recipe up to white
+    space in step text, the same validity — for well-formed recipes** (partial: see MISSING).
+    `DocWF α env pre doc`: the printed document `pre ++ docSpec doc` (leading blank lines, then steps
+    made of text runs and components, section lines, `>>` lines, with their separators) satisfies
+    the conditions of the C01 round trip (`C01_recipe_doc`): every block within the printer's
+    grammar, well spelled, no front-matter fence.  `ItemIns ws`: a block is unchanged, or is a step
+    whose segments are related by `SegsIns` (any number of steps may carry an insertion).
+    Statement: if both documents are well formed and the first is the second with such insertions,
+    then `parse` returns a recipe for both (same validity: output present, no error), and
+    * the sections correspond one to one with equal names, as many contents, steps with equal
+      numbers and items equal up to white space in text (`LooseSection`/`trailLoose`: the oracle's
+      comparison) — component items with the SAME table indices;
+    * the ingredient, cookware and timer tables, the metadata map, the inline-quantity table and
+      the front matter are EQUAL;
+    * the diagnostics have the same severities, stages, kinds and label counts (at most the
+      deprecation notice for `>>` lines), no panic.
+    MISSING for the full clause: (a) the well-formedness of the TRANSFORMED document is a hypothesis
+    here; it follows from that of the original (text runs stay text runs, `C17_well_spelled_insertion`
+    gives the spelling, the step shape is kept because the filler never starts a line) but only the
+    spelling part is proved; (b) documents outside the round-trip grammar (front matter, references,
+    mode switches, `>` text blocks, insertion inside component names / quantities / notes — there the
+    text-level laws `C17_trailing_space_trimmed`, `C17_trailing_space_before_newline`,
+    `C17_comment_between_words` apply to the run, but the lift through the component parsers is not
+    proved); (c) a trailing comment on a `>>` or `=` line (the pads of those lines in the grammar
+    hold blanks and block comments only). -/
+theorem C17_insertion_recipe_wellformed_partial {α : Type} [Arith α] (env : Env) (ws : Char → Bool)
+    (pre' pre : List Tok) (doc' doc : List (DocItem × List Tok))
+    (h' : DocWF α env pre' doc') (h : DocWF α env pre doc)
+    (hins : LRel (ItemIns ws) (doc'.map (·.1)) (doc.map (·.1))) :
+    ∃ c' c : Col α,
+      parseRecipe env (render (pre' ++ docSpec doc')) = ⟨some c', c'.diags, none⟩ ∧
+      parseRecipe env (render (pre ++ docSpec doc)) = ⟨some c, c.diags, none⟩ ∧
+      LRel (LooseSection ws) c'.sections c.sections ∧
+      c'.ingredients.toList = c.ingredients.toList ∧ c'.cookware.toList = c.cookware.toList ∧
+      c'.timers.toList = c.timers.toList ∧ c'.metaMap = c.metaMap ∧ c'.inlineQ = c.inlineQ ∧
+      c'.frontMatter = c.frontMatter ∧
+      c'.diags.toList.map (fun d => (d.sev, d.stage, d.kind, d.labels.length)) =
+        c.diags.toList.map (fun d => (d.sev, d.stage, d.kind, d.labels.length)) :=
+  trail_recipe_doc env ws pre' pre doc' doc h' h hins
+
+/-- the spelling part of (a): a well-spelled token list stays well spelled when filler is
+    inserted, provided the token in front is complete in front of the filler and the filler in front
+    of what follows -/
+theorem C17_well_spelled_insertion (cs : CharSpec) (X F Y : List Tok) (h : WellSpelled cs (X ++ Y))
+    (hFY : WellSpelled cs (F ++ Y))
+    (hX : ∀ l, X.getLast? = some l → spellOK cs l.kind l.text (render (F ++ Y)).head? = true) :
+    WellSpelled cs (X ++ (F ++ Y)) := trail_wellSpelled_insert cs X F Y h hFY hX
+
+/-- one step of a document changed: the documents are related -/
+theorem C17_insertion_in_one_step (ws : Char → Bool) (D1 D2 : List DocItem) (segs' segs : List SegX)
+    (h : SegsIns ws segs' segs) : LRel (ItemIns ws) (D1 ++ .step segs' :: D2) (D1 ++ .step segs :: D2) :=
+  trail_itemIns_at ws D1 D2 segs' segs h
+
+/-! non-vacuity: the toy table satisfies `TrailSpec`; `a` = "ab" ends cleanly; a comment body -/
+example : TrailSpec toyCharSpec := ⟨by decide, by decide, by decide, by decide⟩
+example : lexFrom toyCharSpec 0 ['a', 'b'] = [⟨.word, ['a', 'b'], 0⟩] := by
+  simp [lexFrom_cons, lexOne, singleKind, singleTable, toyCharSpec, isAsciiDigit, lexFrom]
+example : CleanEnd [⟨.word, ['a', 'b'], 0⟩] := by
+  intro l hl
+  simp only [List.getLast?_singleton, Option.some.injEq] at hl
+  subst hl
+  decide
+example : EndOK toyCharSpec (some ' ') [⟨.word, ['a', 'b'], 0⟩] ∧ EndOK toyCharSpec (some '\n') [⟨.word, ['a', 'b'], 0⟩] := by
+  constructor <;> (intro l hl; simp only [List.getLast?_singleton, Option.some.injEq] at hl; subst hl; decide)
+/-- a line that ends in white space is excluded by `CleanEnd` (the widening law covers it) -/
+example : ¬ CleanEnd [⟨.word, ['a'], 0⟩, ⟨.ws, [' '], 1⟩] := by
+  intro h
+  exact (h ⟨.ws, [' '], 1⟩ rfl).1 rfl
+example : blockScan " c -]".toList = " c -]".toList.length ∧ ['-', ']'] <:+ " c -]".toList := by decide
+example : InsHyp [⟨.word, ['a'], 0⟩] [⟨.ws, [' '], 1⟩, ⟨.lineComment, ['-', '-', 'c'], 2⟩] [⟨.newline, ['\n'], 5⟩] :=
+  ⟨⟨[⟨.word, ['a'], 0⟩], ⟨.newline, ['\n'], 5⟩, rfl, by decide, rfl⟩, by simp, by simp, by
+    intro t ht
+    simp only [List.mem_cons, List.not_mem_nil, or_false] at ht
+    rcases ht with rfl | rfl <;> rfl⟩
+example : trailWords (fun c => c = ' ') "a  b ".toList = ["a".toList, "b".toList] := by decide
+example : trailLoose (fun c => c = ' ') [.text "Mix ".toList, .text " well".toList, .ingredient 0, .text " ".toList] =
+    [.words ["Mix".toList, "well".toList], .item (.ingredient 0)] := by decide
+
+/-! non-vacuity of the recipe-level theorem: `Mix well⏎` against `Mix well -- c⏎` and
+    `Mix [- c -] well⏎`, all three within the grammar -/
+def C17_exDoc : List (DocItem × List Tok) :=
+  [(.step [.text [tk .word "Mix".toList, tk .ws [' '], tk .word "well".toList]], [tk .newline ['\n']])]
+def C17_exDocComment : List (DocItem × List Tok) :=
+  [(.step [.text ([tk .word "Mix".toList, tk .ws [' '], tk .word "well".toList] ++
+      [tk .ws [' '], tk .lineComment "-- c".toList] ++ [])], [tk .newline ['\n']])]
+def C17_exDocBlock : List (DocItem × List Tok) :=
+  [(.step [.text (([tk .word "Mix".toList] ++ [tk .ws [' ']]) ++
+      [tk .blockComment "[- c -]".toList, tk .ws [' ']] ++ [tk .word "well".toList])], [tk .newline ['\n']])]
+
+/-- helper for the non-vacuity examples below: a document of single-text-run steps under the toy
+    environment (no extension) is well formed once the decidable conditions hold -/
+theorem C17_exDocWF (doc : List (DocItem × List Tok))
+    (h1 : (∀ d ∈ doc, d.1.ok C17_toyEnv.cs C17_toyEnv.ext = true) ∧ (∀ d ∈ doc, d.1.simple = true) ∧
+      sepsOK (doc.map (·.2)) = true ∧ WellSpelled C17_toyEnv.cs ([] ++ docSpec doc) ∧
+      (parseFrontmatter C17_toyEnv.cs (render ([] ++ docSpec doc))).isNone = true)
+    (h2 : ∀ d ∈ doc, ∃ l, d.1 = .step [.text l]) : DocWF Rat C17_toyEnv [] doc := by
+  obtain ⟨a, b, c, d, e⟩ := h1
+  refine ⟨by decide, a, b, ?_, ?_, c, d, by simpa using e⟩
+  · intro x hx
+    obtain ⟨l, hl⟩ := h2 x hx
+    rw [hl]; trivial
+  · intro x hx
+    obtain ⟨l, hl⟩ := h2 x hx
+    rw [hl]
+    intro sg hsg
+    simp only [List.mem_cons, List.not_mem_nil, or_false] at hsg
+    subst hsg
+    intro hh
+    exact absurd hh (by decide)
+
+example : DocWF Rat C17_toyEnv [] C17_exDoc :=
+  C17_exDocWF _ (by decide) (by intro d hd; simp only [C17_exDoc, List.mem_cons, List.not_mem_nil, or_false] at hd; subst hd; exact ⟨_, rfl⟩)
+example : DocWF Rat C17_toyEnv [] C17_exDocComment :=
+  C17_exDocWF _ (by decide) (by intro d hd; simp only [C17_exDocComment, List.mem_cons, List.not_mem_nil, or_false] at hd; subst hd; exact ⟨_, rfl⟩)
+example : DocWF Rat C17_toyEnv [] C17_exDocBlock :=
+  C17_exDocWF _ (by decide) (by intro d hd; simp only [C17_exDocBlock, List.mem_cons, List.not_mem_nil, or_false] at hd; subst hd; exact ⟨_, rfl⟩)
+example : render ([] ++ docSpec C17_exDocComment) = "Mix well -- c\n".toList ∧
+    render ([] ++ docSpec C17_exDocBlock) = "Mix [- c -] well\n".toList ∧
+    render ([] ++ docSpec C17_exDoc) = "Mix well\n".toList := by decide
+example : LRel (ItemIns (fun c => c = ' ')) (C17_exDocComment.map (·.1)) (C17_exDoc.map (·.1)) :=
+  C17_insertion_in_one_step _ [] [] _ _
+    (C17_trailing_is_insertion _ (by decide) [] [] _ [tk .ws [' '], tk .lineComment "-- c".toList] []
+      (by intro t ht; simp only [List.mem_cons, List.not_mem_nil, or_false] at ht; rcases ht with rfl | rfl <;> rfl)
+      (by intro t ht; simp only [List.mem_cons, List.not_mem_nil, or_false] at ht; rcases ht with rfl | rfl <;> decide)
+      (Or.inl rfl) (by intro s hs; cases hs))
+example : LRel (ItemIns (fun c => c = ' ')) (C17_exDocBlock.map (·.1)) (C17_exDoc.map (·.1)) :=
+  C17_insertion_in_one_step _ [] [] _ _
+    (C17_block_comment_is_insertion _ (by decide) [] [] [tk .word "Mix".toList] (tk .ws [' '])
+      [tk .blockComment "[- c -]".toList, tk .ws [' ']] [tk .word "well".toList] rfl (by decide) (by decide)
+      (by intro t ht; simp only [List.mem_cons, List.not_mem_nil, or_false] at ht; rcases ht with rfl | rfl <;> rfl)
+      (by intro t ht; simp only [List.mem_cons, List.not_mem_nil, or_false] at ht; rcases ht with rfl | rfl <;> decide)
+      (by intro s hs; cases hs))
+
+/-- **Trailing blanks in the source: the same blocks** (every input; needs additionally that LF is
+    not lexer white space): as `C17_trailing_comment_blocks`, the inserted filler being the one
+    whitespace token `sp`. -/
+theorem C17_trailing_spaces_blocks (cs : CharSpec) (hs : TrailSpec cs) (hlf : cs.ws '\n' = false)
+    (u a sp x : List Char) (L : List (List Tok))
+    (hu : lex cs u = L.flatten) (hL : ∀ l ∈ L, IsLine l)
+    (hne : sp ≠ []) (hsp : ∀ y ∈ sp, y = ' ') (ha : a ≠ [])
+    (hnl : ∀ t ∈ lexFrom cs (utf8Len u) a, (t.kind != .newline) = true)
+    (hend : EndOK cs (some ' ') (lexFrom cs (utf8Len u) a)) (hend' : EndOK cs (some '\n') (lexFrom cs (utf8Len u) a)) :
+    ∃ F nl, F = [(⟨.ws, sp, utf8Len u + utf8Len a⟩ : Tok)] ∧
+      nl = (⟨.newline, ['\n'], utf8Len u + utf8Len a⟩ : Tok) ∧
+      LRel (fun b' b => ∃ m, LRel SameKT b' m ∧ InsB (lexFrom cs (utf8Len u) a) F [nl] m b)
+        (blocksOf (lex cs (u ++ (a ++ (sp ++ '\n' :: x)))))
+        (blocksOf (lex cs (u ++ (a ++ '\n' :: x)))) :=
+  trail_spaces_blocks_source cs hs hlf u a sp x L hu hL hne hsp ha hnl hend hend'
+
+/-- the second side condition of the two theorems above in readable form: under `CrlfSpec` (CR, LF
+    neither lexer white space nor word characters) the line feed behind `a` is a token boundary
+    unless `a` ends inside a block comment, in a lone backslash (it escapes the line feed) or in a
+    lone carriage return (it joins the line feed) -/
+theorem C17_clean_line_end_lf (cs : CharSpec) (hcs : CrlfSpec cs) (o : Nat) (a : List Char)
+    (h : CleanEndLF (lexFrom cs o a)) : EndOK cs (some '\n') (lexFrom cs o a) := trail_endOK_lf cs hcs o a h
+
+example : CleanEndLF [⟨.word, ['a', 'b'], 0⟩] := by
+  intro l hl
+  simp only [List.getLast?_singleton, Option.some.injEq] at hl
+  subst hl
+  decide
 
 end Cook
